@@ -348,12 +348,18 @@ def make_contracts(L):
 
                 return (L.cond_obj(rng, n_out, n_in, d), L.normal_obj(rng, n_in, d)), {"solve_triu": LA.solve_triu}
             out.append(Instance(f"n_in={n_in},n_out={n_out},d={d}", make, positive=_scalings(), names=_names))
+        for n_in, n_out, d in _shape_family(tier, L)[:3]:
+            def make_ls(rng, n_in=n_in, n_out=n_out, d=d):
+                import probdiffeq.backend.linalg as LA
+
+                return (L.cond_obj(rng, n_out, n_in, d), L.normal_obj(rng, n_in, d)), {"solve_triu": LA.lstsq_svd}
+            out.append(Instance(f"n_in={n_in},n_out={n_out},d={d},lstsq", make_ls, positive=_scalings(), names=_names))
         return out
 
     C["revert"] = Contract(
         name=f"{pre}.revert", module=L.module, qualname=f"{L.cond}.revert",
         ensures=revert_ens, instances=revert_inst, callees=[CU.revert_conditional], requires=lambda self, rv, *, solve_triu: pos_requires(self),
-        inherits=("revert_conditional#",),
+        inherits=("revert_conditional#", "ghost_inverse#"),
         doc="observed = marginal of y; backward conditional (G,xi,Xi): G S = P A^T, xi = m - G(A m + b), Xi = P - G S G^T (all in effective coordinates)",
     )
 
